@@ -109,6 +109,11 @@ if __name__ == "__main__":
     hs = histories(run.rng, tier)
     n, dis, recs = regcheck.run_histories(run, binary, hs, PROP, regcheck.oracle_valid_state,
                                           "C05 raw buffer after every step of a history", "C05_invariant")
+    # registers of 15-16 qubits (implementation only): reported norm and probabilities after every stage
+    wide = regcheck.wide_histories(run.rng, tier, lambda r, n, hi: [("abs",), ("measure", (1 << hi[1]) | 1), ("abs",), ("probs",),
+                                                                     ("apply", ("h", 1 << hi[1])), ("abs",)])
+    n += regcheck.run_unmodelled(run, binary, wide, regcheck.oracle_valid_state)
+    hs = hs + wide
     steps = sum(len(a) for _, a in hs)
     kinds = {}
     for _, a in hs:
